@@ -727,6 +727,10 @@ pub fn units(prop: &str, tier: Tier) -> Option<Vec<Unit>> {
                 // every InputRef operation (next / peek / skip / save / rewind / parse / check) with an inspector snapshot after each step
                 Unit::Custom { name: "cursor-machine".into(), run: Box::new(move |cx| eng_inputs::run("cursor-machine", tier, cx)) },
             ]
+            .into_iter()
+            // the state seen by Pratt fold callbacks, with operator symbols sharing a prefix
+            .chain(eng_pratt::units_state(tier).into_iter().map(|u| Unit::Custom { name: u.name.clone(), run: Box::new(move |cx| eng_pratt::run_unit(&u, cx)) }))
+            .collect()
         }
         "C19" => eng_drops::unit_names().into_iter().map(|n| Unit::Custom { name: n.to_string(), run: Box::new(move |cx| eng_drops::run(n, tier, cx)) }).collect(),
         "C20" => {
